@@ -123,6 +123,11 @@ type tableRun struct {
 
 // runTable walks fn under env; callEvent maps a call to an event string ("" = ignore).
 func runTable(fn *ssa.Function, env *tableEnv, callEvent func(call *ssa.Call) string) tableRun {
+	return runTableS(fn, env, callEvent, nil)
+}
+
+// runTableS additionally reports stores (storeEvent may return "").
+func runTableS(fn *ssa.Function, env *tableEnv, callEvent func(call *ssa.Call) string, storeEvent func(st *ssa.Store) string) tableRun {
 	if len(fn.Params) > 0 && fn.Signature.Recv() != nil {
 		env.recv = fn.Params[0].Name()
 	}
@@ -130,6 +135,13 @@ func runTable(fn *ssa.Function, env *tableEnv, callEvent func(call *ssa.Call) st
 	w.onCall = func(w *walker, call *ssa.Call) {
 		if ev := callEvent(call); ev != "" {
 			w.events = append(w.events, ev)
+		}
+	}
+	if storeEvent != nil {
+		w.onStore = func(w *walker, st *ssa.Store) {
+			if ev := storeEvent(st); ev != "" {
+				w.events = append(w.events, ev)
+			}
 		}
 	}
 	ret, stuck := w.run(fn)
@@ -654,5 +666,92 @@ func checkTreeRules(c *Ctx, l *Loaded, which map[string]bool) {
 			}
 		}
 		c.decide("TABLE-remove", "recursiveRemove patches the routing key from the right subtree's new leftmost key", l.pos(rr.Pos()), patched, "node.key = newKey", "the routing key is not updated when the leftmost key of the right subtree was removed: lookups mis-route")
+	}
+}
+
+// checkV2TreeRules pins v2's in-place insertion and rotation as event sequences.
+func checkV2TreeRules(c *Ctx, l *Loaded) {
+	c.rule("TABLE-v2-rotate", "v2 rotation: orphan/mutate both nodes, re-wire, recompute lower node first", 2)
+	c.rule("TABLE-v2-insert", "v2 insertion: leaf split / replace and descent direction", 6)
+	ev := func(call *ssa.Call) string {
+		f := staticCallee(&call.Call)
+		if f == nil || !l.inModule(f) {
+			return ""
+		}
+		switch f.Name() {
+		case "mutateNode", "setLeft", "setRight", "calcHeightAndSize", "balance", "recursiveSet", "NewLeafNode", "_hash", "Get":
+		default:
+			return ""
+		}
+		var as []string
+		for _, a := range call.Call.Args {
+			as = append(as, roleOf(l, a, "", 0))
+		}
+		return f.Name() + "(" + strings.Join(as, ",") + ")"
+	}
+	stKey := func(st *ssa.Store) string {
+		if fa, ok := st.Addr.(*ssa.FieldAddr); ok {
+			switch fieldName(fa.X.Type(), fa.Field) {
+			case "key", "value", "subtreeHeight", "size":
+				if n := derefNamed(fa.X.Type()); n != nil && n.Obj().Name() == "Node" {
+					return fieldName(fa.X.Type(), fa.Field) + ":=" + roleOf(l, st.Val, "", 0)
+				}
+			}
+		}
+		return ""
+	}
+	rot := map[string]string{
+		"*Tree.rotateRight": "mutateNode(recv,arg0) ; mutateNode(recv,left(arg0,recv)) ; setLeft(arg0,right(left(arg0,recv),recv)) ; setRight(left(arg0,recv),arg0) ; calcHeightAndSize(arg0,recv) ; calcHeightAndSize(left(arg0,recv),recv) => left(arg0,recv)",
+		"*Tree.rotateLeft":  "mutateNode(recv,arg0) ; mutateNode(recv,right(arg0,recv)) ; setRight(arg0,left(right(arg0,recv),recv)) ; setLeft(right(arg0,recv),arg0) ; calcHeightAndSize(arg0,recv) ; calcHeightAndSize(right(arg0,recv),recv) => right(arg0,recv)",
+	}
+	for _, name := range []string{"*Tree.rotateRight", "*Tree.rotateLeft"} {
+		fn := l.Func("", name)
+		if fn == nil {
+			c.anchorMissing("TABLE-v2-rotate", name)
+			continue
+		}
+		run := runTable(fn, &tableEnv{l: l, flag: map[string]int{}, cmp: func(a, b string) (int, bool) { return 0, false }}, ev)
+		got := strings.Join(run.events, " ; ") + " => stuck"
+		if run.ret != nil {
+			got = strings.Join(run.events, " ; ") + " => " + roleOf(l, retVal(run.ret, 0), "", 0)
+		}
+		c.decide("TABLE-v2-rotate", "v2 "+name, l.pos(fn.Pos()), got == rot[name], got, "rotation does `"+got+"`, the rule is `"+rot[name]+"`")
+	}
+	rs := l.Func("", "*Tree.recursiveSet")
+	if rs == nil {
+		c.anchorMissing("TABLE-v2-insert", "v2 Tree.recursiveSet")
+		return
+	}
+	want := map[string]string{
+		"-1 leaf":  "Get(recv.pool) ; key:=arg0.key ; subtreeHeight:=1 ; size:=2 ; NewLeafNode(recv,arg1,arg2) ; setLeft(Get(recv.pool),NewLeafNode(recv,arg1,arg2)) ; setRight(Get(recv.pool),arg0) => Get(recv.pool) | false",
+		"1 leaf":   "Get(recv.pool) ; key:=arg1 ; subtreeHeight:=1 ; size:=2 ; setLeft(Get(recv.pool),arg0) ; NewLeafNode(recv,arg1,arg2) ; setRight(Get(recv.pool),NewLeafNode(recv,arg1,arg2)) => Get(recv.pool) | false",
+		"0 leaf":   "mutateNode(recv,arg0) ; value:=arg2 ; _hash(arg0) => arg0 | true",
+		"-1 inner": "mutateNode(recv,arg0) ; recursiveSet(recv,left(arg0,recv),arg1,arg2) ; setLeft(arg0,recursiveSet(recv,left(arg0,recv),arg1,arg2)#0) ; calcHeightAndSize(arg0,recv) ; balance(recv,arg0)",
+		"0 inner":  "mutateNode(recv,arg0) ; recursiveSet(recv,right(arg0,recv),arg1,arg2) ; setRight(arg0,recursiveSet(recv,right(arg0,recv),arg1,arg2)#0) ; calcHeightAndSize(arg0,recv) ; balance(recv,arg0)",
+		"1 inner":  "mutateNode(recv,arg0) ; recursiveSet(recv,right(arg0,recv),arg1,arg2) ; setRight(arg0,recursiveSet(recv,right(arg0,recv),arg1,arg2)#0) ; calcHeightAndSize(arg0,recv) ; balance(recv,arg0)",
+	}
+	for _, ord := range []int{-1, 0, 1} {
+		for _, leaf := range []bool{true, false} {
+			ord := ord
+			env := &tableEnv{l: l, flag: map[string]int{"isLeaf()": map[bool]int{true: 1, false: -1}[leaf], "isReplaying": -1, "storeLeafValues": 1, "dirty": -1, "recursiveSet()#1": -1}, cmp: func(a, b string) (int, bool) {
+				if a == "arg1" && strings.HasSuffix(b, ".key") {
+					return ord, true
+				}
+				return 0, false
+			}}
+			run := runTableS(rs, env, ev, stKey)
+			got := strings.Join(run.events, " ; ")
+			k := fmt.Sprintf("%d %s", ord, map[bool]string{true: "leaf", false: "inner"}[leaf])
+			if leaf {
+				if run.ret != nil {
+					got += " => " + roleOf(l, retVal(run.ret, 0), "", 0) + " | " + roleOf(l, retVal(run.ret, 1), "", 0)
+				} else {
+					got += " => stuck"
+				}
+			} else if run.ret == nil {
+				got += " => stuck"
+			}
+			c.decide("TABLE-v2-insert", "v2 recursiveSet: key vs node key "+k, l.pos(rs.Pos()), got == want[k], got, "insertion does `"+got+"`, the rule is `"+want[k]+"`")
+		}
 	}
 }
